@@ -709,3 +709,33 @@ func describe(v ssa.Value) string {
 }
 
 type ssaCall = ssa.CallCommon
+
+// CallsRecv: calls to spec whose receiver matches recv.
+func (c *Ctx) CallsRecv(f *ssa.Function, spec string, recv VPat) []Site {
+	return c.CallsWhere(f, spec, func(cc *ssa.CallCommon) bool {
+		r := callRecv(cc)
+		return r != nil && recv(r)
+	})
+}
+
+// CallsArg: calls to spec whose idx-th argument (receiver excluded) matches p.
+func (c *Ctx) CallsArg(f *ssa.Function, spec string, idx int, p VPat) []Site {
+	return c.CallsWhere(f, spec, func(cc *ssa.CallCommon) bool {
+		as := callArgs(cc)
+		return idx < len(as) && p(as[idx])
+	})
+}
+
+// FuncsInFiles lists functions of the package declared in the named files.
+func (c *Ctx) FuncsInFiles(rel string, files ...string) []*ssa.Function {
+	var out []*ssa.Function
+	for _, f := range c.AllFuncs(rel) {
+		p := c.Fset.Position(f.Pos()).Filename
+		for _, fn := range files {
+			if strings.HasSuffix(p, "/"+fn) {
+				out = append(out, f)
+			}
+		}
+	}
+	return out
+}
